@@ -43,6 +43,32 @@ add2={
 for k,v in add2.items():
     add[k]=(add.get(k,'**Wave 3:**')+' '+v) if k in add else '**Wave 3:** '+v
 
+add3={
+'C03':"Wave 4: `c03_verifier_complete_partial` (checker accepts ⇒ the verifier model accepts, for every phi-free function incl. calls, branches, self loops, critical edges) and `c03_verifier_iff_wf_partial` (checker ⇒ verifier ⇒ `wf_function` under representation invariants); completeness with phis by correspondence on unusual well-formed modules.",
+'C05':"Wave 4: 189 of 232 rows proved — every integer row except `LABEL` ×2 and `MOVB` (`c05_rv_subword_rule_sound`, `c05_rv_mem_address_rule_sound`, `c05_rv_fprel_rule_sound`); the rest are float/soft-float rows.",
+'C08':"Wave 4: five more one/two-line encoding repairs (bb6ec56 c.addi sign, d05f7c2 c.andi sign, 71a31e5 thumb strh/ldrh offset scaling, a36369b x86 `shl` opcode extension, cad4ac1 32-bit unary ops without REX.W): 10 findings moved to the clean side, 17 remain (unencoded `rs` operands, RVC corner rows, x86 high-byte registers under REX, m68k long immediates, mips sllv/srlv/srav operand order, `jalr`).",
+'C17':"Wave 4: `c17_whole_file_contents` — for every object, with no bound on sections/symbols/relocations, the final file's `.symtab` (null entry + records, locals first, `sh_info`), every `.rela<section>` and `.strtab` sit at their recorded offsets and are read back by the independent reader (`c17_symtab_in_file`, `c17_rela_in_file`, `c17_strtab_in_file`); still bounded: the symbol-id→index map (meaning of `r_sym`) and single-call acceptance by the monolithic reader.",
+'C22':"Wave 4: `memory.grow` takes an unsigned page count (fix 7945bf7, `c22_memory_grow_spec_fixed`); `div_s MIN −1` stays known (the IR signed division carries no overflow trap; both candidate repairs change C24's division semantics).",
+'C26':"Wave 4: stringification keeps the argument's spelling (a9598a1) and `##` with an empty argument uses placemarker semantics (410e5c1), gcc -E as oracle: 6 findings closed; `#if` unsigned arithmetic, `@` in arguments, pp-number pasting and hide-set loss through nested arguments remain.",
+'C21':"Wave 4: `c21_text_def_roundtrip` now covers type, table, memory, global, start, elem (table 0) and func definitions, `c21_text_defs_roundtrip` lists of them and `c21_text_module_roundtrip` the `(module …)` loop over those seven kinds; import/export/data (string tokens), the s-expr lexer, identifiers and abbreviations stay validation only.",
+'C11':"Wave 4: thumb `bl` now encodes J1/J2 (fix 3e4af2d), `c11_thumb_bl_full_range` proves the repaired relocation exact over the full ±16 MiB range (probed switch `bl_fixed`, `c11_tie_bodies` ties whichever variant the source contains).",
+'C13':"Wave 4: re-alignment after relaxation was examined and left known: the relaxation phase has no access to the layout directives, and rounding sections up locally could push an already shrunk jump out of range.",
+'C36':"Wave 4: function calls — `c36_module_exact` (a module of functions calling each other, recursion unrestricted, statement-position calls; expression-position calls and externals differential only); fix 20c3108 (calls to functions defined later in the module raised KeyError, so mutual recursion was impossible).",
+}
+for k,v in add3.items():
+    add[k]=(add[k]+' '+v) if k in add else '**Wave 3:** '+v
+
+add4={
+'C01':"Round-4 follow-up: shift family (`<< >> <<= >>=` over every left × right type pair, negative left values) in the search and the gcc differential.",
+'C06':"Round-4 follow-up: `check_register_files` — the overlap relation of x86_64 and avr is derived from the architectural register names and compared with the target's alias table on every run (other targets: symmetry and same-class sanity); the validator uses this ground-truth overlap instead of the target's own table.",
+'C07':"Round-4 follow-up: the 15 pseudo instructions that `render()` into real instructions are rendered, decoded and executed on the RV32/RVC semantics against their own declared reads/writes (oracle with concrete replays, no per-class theorem).",
+'C21':"Round-4 follow-up: `c21_text_default_align_table` — natural alignment is defined independently (`Spec/WasmAlignSpec.v`, 45 memory mnemonics by access width) and the exported text-form table is proved equal to it; every memory instruction assembled from text without `align=` is compared with hand-built bytes.",
+'C23':"Round-4 follow-up: `c23_unop_table_exact` (every compiled NEG row incl. the re-wrap leaves the canonical representation of IRSem's negation, MIN included; `c23_unop_unwrapped_refuted`), boundary pool for unary/binary/compare rows in the quick tier.",
+'C28':"Round-4 follow-up: 5760 C3 constant programs (18 operators × int/float/mixed × zero divisors × 8 contexts) in the recorded set.",
+}
+for k,v in add4.items():
+    add[k]=(add[k]+' '+v) if k in add else '**Wave 3:** '+v
+
 lines=s.split('\n')
 a=next(i for i,l in enumerate(lines) if l.startswith('### 10.2'))
 b=next(i for i,l in enumerate(lines) if l.startswith('### 10.3'))
